@@ -595,3 +595,151 @@ def run(ctx) -> None:  # noqa: F811
                   f"{why}: the caller asked for a transform over `axes` and gets one over other axes",
                   key_detail="planaxes")
     _inner_run_c38b(ctx)
+
+
+# ---- added after the mutation sweep: every supported value of the `fft` key selects its own transform library
+_inner_run_c38c = run
+
+_LIBRARY = {"numpy": "numpy", "mkl_fft": "mkl", "pyfftw": "fftw", "cupy": "cupy", "scipy": "scipy"}
+FFT_VALUES = ("numpy", "fftw", "mkl")  # the documented values of the configuration key (abtem/core/abtem.yaml)
+
+
+def _library_root(mod: ModuleInfo, expr: ast.AST) -> Optional[str]:
+    """Transform library a dotted expression belongs to (`np.fft` -> numpy), through the module's import aliases."""
+    d = dotted(expr)
+    if not d:
+        return None
+    head = d.split(".")[0]
+    target = (mod.imports.get(head) or head).split(".")[0]
+    if target not in _LIBRARY:  # aliases bound inside try/except import blocks
+        for st in ast.walk(mod.tree):
+            if isinstance(st, ast.Import):
+                for a in st.names:
+                    if (a.asname or a.name.split(".")[0]) == head:
+                        target = a.name.split(".")[0]
+    lib = _LIBRARY.get(target)
+    if lib in ("numpy", "cupy", "scipy") and "fft" not in d.split(".")[1:]:
+        return None  # array helpers (np.zeros_like, ...) are not transforms
+    return lib
+
+
+def _libraries_called(repo, mod: ModuleInfo, expr: ast.AST, depth: int = 0) -> set[str]:
+    """Transform libraries that evaluating the call `expr` can run: getattr(<lib>, name)(...), <lib>.fft.f(...),
+    <lib>.FFTW(...), or a package function that does one of these (followed through package calls)."""
+    out: set[str] = set()
+    if not isinstance(expr, ast.Call):
+        return out
+    fn = expr.func
+    if isinstance(fn, ast.Call) and call_name(fn) == "getattr" and fn.args:
+        lib = _library_root(mod, fn.args[0])
+        if lib:
+            out.add(lib)
+        return out
+    lib = _library_root(mod, fn)
+    if lib:
+        out.add(lib)
+        return out
+    g = repo.resolve_name(mod, call_name(expr) or "")
+    if isinstance(g, FuncInfo) and depth < 3:
+        for c in ast.walk(g.node):
+            if isinstance(c, ast.Call) and c is not expr:
+                if isinstance(c.func, ast.Call) or _library_root(g.module, c.func):
+                    out |= _libraries_called(repo, g.module, c, depth + 1)
+                else:
+                    h = repo.resolve_name(g.module, call_name(c) or "")
+                    if isinstance(h, FuncInfo) and h.node is not g.node:
+                        out |= _libraries_called(repo, g.module, c, depth + 1)
+    return out
+
+
+class _KeyDomain:
+    """Domain for sa.rules.absint.PathInterp: values are the expressions themselves; a test is decided only when it
+    compares a read of the configuration key with a string literal."""
+
+    def __init__(self, key: str, value: str):
+        self.key, self.value = key, value
+
+    def is_read(self, e, env) -> bool:
+        if isinstance(e, ast.Name) and e.id in env:
+            e = env[e.id]
+        return isinstance(e, ast.Call) and last_attr(e) == "get" and len(e.args) >= 1 and isinstance(
+            e.args[0], ast.Constant) and e.args[0].value == self.key and (dotted(e.func) or "").split(".")[-2:-1] == [
+            "config"]
+
+    def eval(self, expr, env):
+        if isinstance(expr, ast.Name) and expr.id in env:
+            return env[expr.id]
+        return expr
+
+    def truth(self, test, env):
+        if isinstance(test, ast.UnaryOp) and isinstance(test.op, ast.Not):
+            t = self.truth(test.operand, env)
+            return None if t is None else not t
+        if isinstance(test, ast.BoolOp):
+            ts = [self.truth(v, env) for v in test.values]
+            if isinstance(test.op, ast.And):
+                return False if False in ts else (None if None in ts else True)
+            return True if True in ts else (None if None in ts else False)
+        if isinstance(test, ast.Compare) and len(test.ops) == 1:
+            a, b = test.left, test.comparators[0]
+            for x, y in ((a, b), (b, a)):
+                if self.is_read(x, env):
+                    if isinstance(test.ops[0], (ast.Eq, ast.NotEq)) and isinstance(y, ast.Constant) and isinstance(y.value, str):
+                        return (self.value == y.value) == isinstance(test.ops[0], ast.Eq)
+                    if isinstance(test.ops[0], (ast.In, ast.NotIn)) and isinstance(y, (ast.Tuple, ast.List, ast.Set)) and all(
+                            isinstance(e, ast.Constant) for e in y.elts):
+                        return (self.value in [e.value for e in y.elts]) == isinstance(test.ops[0], ast.In)
+                    raise AnalysisError(f"test `{norm_text(test)}` on the configuration key is not a comparison with a "
+                                        "string literal")
+        return None
+
+    def assign(self, target, value, env):
+        if isinstance(target, ast.Name):
+            env[target.id] = value
+
+    def augassign(self, stmt, env):
+        if isinstance(stmt.target, ast.Name):
+            env.pop(stmt.target.id, None)
+
+
+def _dispatch(ctx, repo) -> None:
+    from ..rules.absint import PathInterp
+
+    f = repo.function(FFT, "_fft_dispatch")
+    n = 0
+    for v in FFT_VALUES:
+        dom = _KeyDomain("fft", v)
+        paths = PathInterp(dom).run(f.body, {})
+        decided = [p for p in paths if any(dom.truth(t, p.env) is not None for t, _ in p.trace)]
+        ctx.require(decided, f"{f.qualname}: no path depends on the configuration key 'fft'")
+        for k, p in enumerate(decided):
+            # only the tests on the key select among these paths; one path per arm of the other tests
+            n += 1
+            construct = f"{f.qualname}:fft={v!r}" + (f" path #{k + 1}" if len(decided) > 1 else "")
+            if p.kind != "return":
+                ctx.violation("R-DISPATCH", construct, f.loc(p.node) if p.node is not None else f.where,
+                              f"with the supported configuration fft={v!r} the dispatcher does not reach a transform "
+                              f"({'raises' if p.kind == 'raise' else 'returns nothing'}): every FFT of a run configured "
+                              "this way fails, while the other back ends work", key_detail="unreached")
+                continue
+            val = p.value
+            if isinstance(val, ast.Call) and isinstance(val.func, ast.Name) and isinstance(p.env.get(val.func.id), ast.AST):
+                val = ast.Call(func=p.env[val.func.id], args=val.args, keywords=val.keywords)  # transform held in a local
+            libs = _libraries_called(repo, f.module, val)
+            ctx.require(libs, f"{f.qualname}: cannot tell which library `{norm_text(p.value)[:60]}` transforms with")
+            ctx.check(libs == {v}, "R-DISPATCH", construct, f.loc(p.node),
+                      f"transforms with {', '.join(sorted(libs))}",
+                      f"with fft={v!r} the transform is done by {', '.join(sorted(libs))} (`{norm_text(p.value)[:60]}`): "
+                      f"the configured library is not the one that runs — a run configured for {v} needs (and fails "
+                      f"without) {', '.join(sorted(libs - {v})) or '?'}", key_detail="library")
+    ctx.require(n >= 3, f"{f.qualname}: fewer than three configuration-dependent paths")
+
+
+def run(ctx) -> None:  # noqa: F811
+    ctx.rule("R-DISPATCH", "_fft_dispatch, abstractly executed once for each documented value of the `fft` key "
+             "('numpy', 'fftw', 'mkl') with every test on config.get('fft') decided and all other tests forked, returns "
+             "on each path that depends on the key a transform of exactly that library (numpy.fft / pyfftw via "
+             "get_fftw_object / mkl_fft, followed through package functions) and never raises — the property "
+             "quantifies over all supported values of the key, the test suite runs with one")
+    _dispatch(ctx, ctx.repo)
+    _inner_run_c38c(ctx)
